@@ -6,7 +6,7 @@ import itertools
 from fractions import Fraction
 
 from ..core import Run, AnalysisError, dotted, norm
-from ..alg import T, num, var, op, normalize, Rat
+from ..alg import T, num, var, op, normalize, Rat, same
 from ..vecreader import VecReader, gvec, t_dot, t_cross, t_mixed, t_norm
 from ..flow import monomial
 
@@ -60,8 +60,8 @@ def _eq(a, b) -> bool:
     if isinstance(a, list) != isinstance(b, list):
         return False
     if isinstance(a, list):
-        return len(a) == len(b) and all(normalize(x).eq(normalize(y)) for x, y in zip(a, b))
-    return normalize(a).eq(normalize(b))
+        return len(a) == len(b) and all(same(normalize(x), normalize(y)) for x, y in zip(a, b))
+    return same(normalize(a), normalize(b))
 
 
 def _show(x) -> str:
@@ -189,7 +189,7 @@ def _r2_products(run: Run, mod) -> None:
                                     rd.env[st.targets[0].id] = rd.ev(st.value)
                                 elif isinstance(st, ast.AugAssign) and dotted(st.target) == "result" and isinstance(st.op, ast.Add):
                                     got = rd.ev(st.value)
-                                    if normalize(got).eq(normalize(op("mul", t_dot(v, v), var("k")))):
+                                    if same(normalize(got), normalize(op("mul", t_dot(v, v), var("k")))):
                                         ok = True
                         except AnalysisError:
                             ok = False
